@@ -10,6 +10,14 @@ NOTE_COMMON = ("Trusted: Verus 0.2026.09.13 + Z3; the extractor's logged rewrite
                "std/serde_json stand-ins listed in evidence.coverage.trusted_base (external_body / assume_specification / uninterp); ")
 
 CLAIMED = {
+    "C07": {
+        "text": "Proof: MethodCall::send/recv/next/oneway/more and From<Reply> for ErrorKind satisfy, for all connection states, replies and flags: a refused send "
+                "(object already sent, or connection busy) touches nothing and writes nothing; a successful non-oneway send takes both slots; recv returns them exactly "
+                "on a reply without continues:true; an error reply maps to the ErrorKind determined by its name; success exactly when there is no error member.",
+        "note": NOTE_COMMON + "the RwLock is modelled as exclusive access for the guard's lifetime (std exclusivity, no poisoning: assumed); interleavings of several "
+                "threads are reduced to sequences of these atomic transitions by that assumption and are not explored; `?` error conversion values are not characterised by Verus.",
+        "ref": "5-C07",
+    },
     "C01": {
         "text": "Proof: handle()'s contract (every complete frame taken from the reader is parsed and answered per the reply discipline, replies appended "
                 "in frame order, nothing consumed is lost, Ok without upgrade only at EOF/incomplete tail) is discharged for all byte streams, all "
@@ -39,7 +47,7 @@ CLAIMED = {
     "C04": {
         "text": "Proof: every server-side reply writer (reply_struct, reply_parameters and every helper that funnels into them) is verified, "
                 "for all Call states and all replies, to leave the writer log unchanged when the request carries oneway:true.",
-        "note": NOTE_COMMON + "Call.writer is a public field: direct writes by user code are outside the claim.",
+        "note": NOTE_COMMON + "Call.writer is a public field: direct writes by user code are outside the claim; client half: MethodCall::send(oneway)/oneway() leave the reader in the connection.",
         "ref": "5-C04",
     },
     "C05": {
